@@ -208,6 +208,22 @@ pub fn record_lens(out: &mut Out, tier: &str, seed: u64, profile: &str) {
             }
         }
     }
+    // bodies of 2^32 bytes and more, described by ~65,540 clones of one Arc-backed 65,535-byte filter: only
+    // encode_len() is called (the refusal must come before anything is allocated)
+    {
+        let f = mqtt_proto::TopicFilter::try_from("f".repeat(65535)).unwrap();
+        for extra in [0usize, 6000] {
+            let n = 65540 + extra;
+            let p3 = v3::Packet::Subscribe(v3::Subscribe { pid: pid1(), topics: vec![(f.clone(), mqtt_proto::QoS::Level0); n] });
+            let body: u64 = 2 + n as u64 * (3 + 65535);
+            out.ev(json!({"ev": "LensHuge", "fam": "v3", "t": "Subscribe", "body_hi": body >> 28, "body_lo": body & 0xFFF_FFFF,
+                          "encode_len": encode_len::<V3>(&p3)}));
+            let p5 = v5::Packet::Unsubscribe(v5::Unsubscribe::new(pid1(), vec![f.clone(); n]));
+            let body: u64 = 2 + 1 + n as u64 * (2 + 65535);
+            out.ev(json!({"ev": "LensHuge", "fam": "v5", "t": "Unsubscribe", "body_hi": body >> 28, "body_lo": body & 0xFFF_FFFF,
+                          "encode_len": encode_len::<V5>(&p5)}));
+        }
+    }
     if tier != "thorough" {
         // the refusal clause without allocating 256 MB twice: one packet just past the limit
         let pl = 268435456 - 2 - 3;
